@@ -51,6 +51,7 @@ type Ctx struct {
 }
 
 func (c *Ctx) ob(rule, fn, construct string, pos string, ok bool, what, detail string) {
+	stripEnv = nil // (bindings set up by the last condition matched do not outlive the step that asked)
 	key := rule + "/" + fn + "/" + construct
 	if c.keys == nil {
 		c.keys = map[string]bool{}
